@@ -2281,6 +2281,13 @@ func (c *DnsController) Handle_(ctx context.Context, dnsMessage *dnsmessage.Msg,
 
 func (c *DnsController) HandleWithResponseWriter_(ctx context.Context, dnsMessage *dnsmessage.Msg, req *udpRequest, responseWriter dnsmessage.ResponseWriter) (err error) {
 	c.requireStore()
+	// A query carries exactly one question (RFC 9619). Request routing, the cache key,
+	// the singleflight key and the question check of the answer all look at Question[0]
+	// only: a further question would be forwarded unrouted (past a reject rule) and its
+	// answer cached under the first question's key. Refuse such a query like resolvers do.
+	if len(dnsMessage.Question) > 1 && !dnsMessage.Response {
+		return c.sendDnsErrorResponse_(dnsMessage, dnsmessage.RcodeFormatError, "Refuse query with more than one question", req, responseWriter)
+	}
 	var upstreamIndex consts.DnsRequestOutboundIndex
 	var upstream *dns.Upstream
 
